@@ -94,8 +94,7 @@ def doDft (l : Line) : Option String := do
 
 /-- `ft impl=np|fftw inv= plus= hc= realdom= rshape= axes= shifts= x0= s= x=`
 `FourierTransform` / `FourierTransformInverse`.  `x0`, `s`: per-AXIS-OF-THE-ARRAY minimum
-point and stride of the real-space grid (exact rationals of the floats).  Values are
-modelled for the NumPy branch; for pyfftw only the status is modelled. -/
+point and stride of the real-space grid (exact rationals of the floats).  Both back-ends. -/
 def doFt (l : Line) : Option String := do
   let impl ← l.get? "impl"
   let inv ← l.bool? "inv"; let plus ← l.bool? "plus"; let hc ← l.bool? "hc"
@@ -121,18 +120,17 @@ def doFt (l : Line) : Option String := do
   match status with
   | some e => some e
   | none =>
-    if fftw then some "ok status-only" else
     let x ← l.get? "x" >>= parseList parseCF
     if x.length ≠ Wavelet.prod (if inv then fshape else rshape) then none
     let out (sh : List Nat) (y : Array CF) :=
       s!"ok shape={showNatList sh} y={showList CF.str y.toList}"
     let re : CF → CF := fun z => ⟨z.re, 0⟩
     if inv then
-      let (sh, y) ← ftInverseNd floatRoots ePi CF.conj re amp c t plus hc realdom rshape axes shifts
+      let (sh, y) ← ftInverseNd floatRoots ePi CF.conj re amp c t fftw plus hc realdom rshape axes shifts
           x.toArray
       some (out sh y)
     else
-      let (sh, y) ← ftForwardNd floatRoots ePi re amp c t plus hc rshape axes shifts x.toArray
+      let (sh, y) ← ftForwardNd floatRoots ePi re amp c t fftw plus hc rshape axes shifts x.toArray
       some (out sh y)
 
 /-- `padmode name= zero=0|1` -/
